@@ -781,6 +781,44 @@ def minimal_repro(wd, probe, placement, payload, backend, case):
     return r, text
 
 
+ALT_FORMULAS = [N("js"), N("cpp"), N("dart"), N("kotlin"), ("not", N("js")), ("any", (N("cpp"), N("dart"))), ("all", (N("js"), ("not", N("dart")))), S("option"), STAR]
+
+
+def alternatives_unit(rep, wd, probe):
+    """two methods competing for a slot only one may fill (the unnamed constructor; one getter name), each disabled under the
+    complement of the other's condition: a method whose disable applies is inert, so every backend accepts the pair and emits
+    exactly the survivor"""
+    n = 0
+    for kind, attr in (("constructor", "constructor"), ("getter", 'getter = "zq7_w_0000"')):
+        for fi, f in enumerate(ALT_FORMULAS):
+            ret = "Box<Zq7Alt>" if kind == "constructor" else "u8"
+            slf = "" if kind == "constructor" else "&self"
+            body = "unimplemented!()" if kind == "constructor" else "0"
+            text = ("#[diplomat::bridge]\nmod ffi {\n    #[diplomat::opaque]\n    pub struct Zq7Alt;\n    impl Zq7Alt {\n"
+                    "        #[diplomat::attr(auto, %(a)s)]\n        #[diplomat::attr(%(f)s, disable)]\n        pub fn zq7_m_0001(%(s)s) -> %(r)s { %(b)s }\n"
+                    "        #[diplomat::attr(auto, %(a)s)]\n        #[diplomat::attr(not(%(f)s), disable)]\n        pub fn zq7_m_0002(%(s)s) -> %(r)s { %(b)s }\n"
+                    "        pub fn zq7_m_0003(w: &mut DiplomatWrite) {}\n    }\n}\n") % {"a": attr, "f": render(f), "s": slf, "r": ret, "b": body}
+            for b in BACKENDS:
+                r = gen(wd, "alt-%s-%d-%s" % (kind, fi, b), b, text)
+                n += 1
+                t = ev(f, b, probe)
+                if r["rc"] != 0:
+                    rep.violation("C13|disable|alternatives|%s|%s|backend=%s|rejected" % (kind, render(f), b),
+                                  {"input_rs": text, "backend": b, "stderr": r["err"][-600:], "condition": render(f), "condition_true": t},
+                                  "two %s methods, one disabled under `%s` and one under its negation: %s refuses the module although only one is enabled there: %s" % (
+                                      kind, render(f), b, (r["err"].strip().splitlines() or ["?"])[-1][:200]))
+                    continue
+                if b == "demo_gen":
+                    continue  # (its own files only show string-producing methods)
+                toks = tokens_of(r["tree"])
+                got = (("m", 1) in toks, ("m", 2) in toks)
+                if got != ((not t), t):
+                    rep.violation("C13|disable|alternatives|%s|%s|backend=%s|wrong-survivor" % (kind, render(f), b),
+                                  {"input_rs": text, "backend": b, "condition": render(f), "condition_true": t, "present": {"zq7_m_0001": got[0], "zq7_m_0002": got[1]}},
+                                  "two %s methods under `%s` / its negation in %s: present %s, expected exactly the one whose disable does not apply" % (kind, render(f), b, got))
+    return n
+
+
 def run(tier):
     rep = Reporter(PROP, tier, "model_checking")
     build_tool()
@@ -932,6 +970,10 @@ def run(tier):
                               "==" if r.get("equals_star") else "!="))
     timing["singles"] = round(time.time() - t2, 1)
 
+    alt_n = alternatives_unit(rep, wd, probe)
+    judged += alt_n
+    states += alt_n
+    runs += alt_n
     # ---- error formulas
     errs = error_runs(wd)
     runs += len(errs)
